@@ -260,6 +260,8 @@ def check_protocol(fx, R, cq, dim):
                            fx.rel(c0['loc']), 'E-STEP')
             else:
                 R.undecided('Y3', cname + '::cast()', 'cast loop stops on a comparison of crossing parameters; it gives the right count on the border witnesses, the general case is a floating-point statement')
+        elif until_end_cell(fx, R, cq, cname, c0, s0):
+            pass
         else:
             R.undecided('Y3', cname + '::cast()', 'cast loop idiom not recognised: %s' % (got0,))
     # ---- Y4 ordering ---------------------------------------------------------
@@ -355,6 +357,74 @@ def fast_paths(fx, R, cname, c0):
     c1['body'] = dict(c0['body'])
     c1['body']['s'] = [x_ for x_ in top if not any(x_ is f_ for f_ in fast)]
     return c1
+
+
+def until_end_cell(fx, R, cq, cname, c0, s0):
+    """A cast loop that runs `while (current != end cell)`: next() of the class is stepped (E-STEP, exact rationals; crossing parameters initialised as rule Y5 establishes: (next border - origin) / direction,
+    increments res / |direction|) on witness rays whose end point is a cell corner reached with every combination of direction signs.  The walk must emit |end - origin|_1 + 1 cells; with an exact tie at the
+    corner next() moves along ONE axis, and if that is not the axis the end cell still needs, the walk passes the end cell diagonally and never equals it.  Returns True when a verdict was given."""
+    from fractions import Fraction as Fr
+    from .. import mini
+    wl = [s_ for s_ in s0 if s_[0] == 'while' and isinstance(s_[1], tuple) and len(s_[1]) == 3 and s_[1][0] == '!=' and 'this.rayEndIndexes_' in s_[1][1:]]
+    nexts = [s_ for s_ in s0 if s_[0] == 'expr' and isinstance(s_[1], tuple) and s_[1][0] == '.next']
+    fn_next = fx.one(cq + '::next')
+    if len(wl) != 1 or len(nexts) != 1 or fn_next is None or fn_next.get('body') is None:
+        return False
+    dim = int(cq.rstrip('>').split(',')[-1])
+    res = Fr(1, 2)
+    pn = fn_next['params'][0]['name']
+    bad = why = None
+    n_ok = 0
+    for (sx_, sy_) in ((1, -1), (1, 1), (-1, 1), (-1, -1)):
+        end_pt = (sx_ * Fr(5, 4), sy_ * Fr(5, 4))
+        import math
+        end_cell = [math.floor((e_ + res / 2) / res) for e_ in end_pt] + [0] * (dim - 2)
+        want = sum(abs(e_) for e_ in end_cell) + 1
+        BIG = Fr(10 ** 30)
+        env = {'this.rayTMax_': [res / 2, res / 2] + [BIG] * (dim - 2), 'this.rayTDelta_': [res, res] + [BIG] * (dim - 2), 'this.rayStep_': [sx_, sy_] + [0] * (dim - 2), pn: [0] * dim}
+        cells = [list(env[pn])]
+        try:
+            while env[pn] != end_cell and len(cells) < 40:
+                S_ = mini.Step(deep_unwrap)
+                S_.call(fn_next['body'], env)
+                cells.append(list(env[pn]))
+        except (mini.Unsupported, TypeError, KeyError, IndexError) as u:
+            why = str(u)[:120]
+            break
+        if env[pn] != end_cell or len(cells) != want:
+            bad = bad or (end_pt, end_cell, cells[:8], want, len(cells))
+        else:
+            n_ok += 1
+    if why:
+        R.undecided('Y3', cname + '::cast()', 'cast() walks until the end cell is reached; next() is not steppable: %s' % why)
+        return True
+    if bad:
+        R.violated('Y3', cname.split('<')[0] + '::cast():until-end-cell', 'cast() walks `while (%s)` with no bound on the number of steps.  Stepping next() exactly on the ray from a cell centre (0, 0) to the cell corner '
+                   '%s at resolution 1/2 (end cell %s by the index map, |end - origin|_1 + 1 = %d entries): the crossing parameters of the two axes tie at the corner, next() moves along one axis, and the walk goes %s ... - it '
+                   '%s.  The bounded walk this replaces stops after exactly the L1 distance, in a cell whose closed extent contains the corner' % (
+                       pp(next(x for x in walk(c0['body']) if x.get('k') == 'While')['c'])[:80], tuple(str(v_) for v_ in bad[0]), tuple(bad[1][:2]), bad[3], ' -> '.join(str(tuple(c_[:2])) for c_ in bad[2]),
+                       'passes the end cell diagonally and never equals it: the loop does not terminate (indexes leave the grid, the vector grows without bound)' if bad[4] >= 40 else 'emits %d entries' % bad[4]),
+                   fx.rel(c0['loc']), 'E-STEP')
+    else:
+        R.holds('Y3', cname + '::cast()', 'walk until the end cell: reaches it after exactly the L1 distance on the %d corner witnesses (all direction signs, exact ties)' % n_ok, fx.rel(c0['loc']), 'E-STEP')
+    return True
+
+
+def crossing_equal_by_value(tm, td, d, val, want, o_sym, c_sym, res_atoms):
+    """tMax and tDelta written in another spelling (copysign, abs ...): compared by value with (centre + step*res/2 - origin)/direction and res/|direction| on witness origins and resolutions."""
+    try:
+        for rv in (sp.Rational(1, 10), sp.Integer(1), sp.Rational(7, 3)):
+            for (ov, cv) in ((sp.Rational(1, 50), sp.Integer(0)), (sp.Rational(-2, 5), sp.Rational(1, 3)), (sp.Rational(37, 10), sp.Rational(15, 4))):
+                sub = {d: sp.nsimplify(val), o_sym: ov * rv + cv, c_sym: cv}
+                sub.update({a_: rv for a_ in res_atoms(tm) + res_atoms(td)})
+                g1, g2 = sp.nsimplify(tm.subs(sub)), sp.nsimplify(td.subs(sub))
+                w1 = (cv + want * rv / 2 - (ov * rv + cv)) / sp.nsimplify(val)
+                w2 = rv / abs(sp.nsimplify(val))
+                if not (g1.is_number and g2.is_number) or sp.simplify(g1 - w1) != 0 or sp.simplify(g2 - w2) != 0:
+                    return False
+        return True
+    except Exception:
+        return False
 
 
 def check_parameter_aliasing(fx, R, cq, cname):
@@ -681,6 +751,51 @@ def check_set_end_point(fx, R, cq, cname, dim, f):
             R.check(got == want, 'Y5', '%s::setEndPoint:step-sign' % cname if got != want else inst + tagx,
                     'a direction component of %s gets step %s instead of %s: the number of cells still counts the steps along that axis, so the walk overshoots along another one' % (
                         '%.3g' % float(val), got, want), 'step = sign(direction)', fx.rel(f['loc']), 'E-ORD')
+            if want == 0 and got == 0:
+                # a static axis must never be selected: its first crossing is a constant sentinel (max / infinity), or a quotient by the zero direction that is +infinity for EVERY origin of the closed cell
+                # - including an origin on the cell's upper border, where the index map evaluated in floating point can leave a border point (resolutions that are not powers of two)
+                tm0 = st.fields.get(('this', 'rayTMax_[%s]' % iv))
+                if tm0 is None or ('numeric_limits' in str(tm0) and ('max' in str(tm0) or 'infinity' in str(tm0))) or tm0 == sp.oo or (isinstance(tm0, sp.Basic) and tm0.is_number and tm0 >= 10 ** 30):
+                    R.holds('Y5', inst + ':static-axis' + tagx, 'the first crossing of a static axis is a constant sentinel', fx.rel(f['loc']), 'E-ORD')
+                elif isinstance(tm0, sp.Basic):
+                    badz = None
+                    und0 = [a_ for a_ in tm0.atoms(sp.core.function.AppliedUndef) if a_ not in res_atoms(tm0)]
+                    if und0:
+                        R.undecided('Y5', inst + ':static-axis' + tagx, 'first crossing of a static axis not evaluable: %s' % str(tm0)[:120])
+                    else:
+                        for sgn in (1, -1):
+                            for ov in (sp.Rational(-1, 2), sp.Integer(0), sp.Rational(49, 100), sp.Rational(1, 2)):
+                                try:
+                                    num_, den_ = sp.fraction(sp.together(tm0.replace(sp.sign, lambda a_: sp.Integer(sgn) if a_ == d else sp.sign(a_))))
+                                    sub0 = {o_sym: ov, c_sym: 0}
+                                    sub0.update({a_: sp.Integer(1) for a_ in res_atoms(tm0)})
+                                    nv = sp.nsimplify(num_.subs(sub0).subs(d, 0))
+                                    dv = sp.nsimplify(den_.subs(sub0).subs(d, 0))
+                                except Exception:
+                                    nv = dv = None
+                                if nv is None or not (nv.is_number and dv.is_number):
+                                    badz = badz or ('?', ov, sgn)
+                                    continue
+                                if dv != 0:
+                                    val0 = 'finite (%s)' % (nv / dv)
+                                elif nv == 0:
+                                    val0 = 'NaN (0/0)'
+                                elif (nv > 0) == (sgn > 0):
+                                    continue                      # +infinity: never selected
+                                else:
+                                    val0 = '-infinity'
+                                badz = badz or (val0, ov, sgn)
+                        if badz and badz[0] == '?':
+                            R.undecided('Y5', inst + ':static-axis' + tagx, 'first crossing of a static axis not evaluable on the witness origins: %s' % str(tm0)[:120])
+                        elif badz:
+                            R.violated('Y5', '%s::setEndPoint:static-axis-sentinel' % cname, 'for a direction component of exactly 0 (an axis-aligned ray) the step is 0 and the first crossing of that axis is `%s`: no '
+                                       'constant sentinel, but a quotient by the zero direction.  Evaluated in IEEE arithmetic with the origin %s (cell centre 0, resolution 1, direction %s0.0) it is %s, not +infinity: '
+                                       'next() compares with it, keeps selecting the axis whose step is 0, and the walk repeats a cell - it does not end in the cell of the end point.  An origin on the upper border is in '
+                                       'that cell whenever the index map, in floating point, rounds the border point down (resolutions that are not powers of two)' % (
+                                           str(tm0)[:140], 'on the upper border of its cell' if badz[1] == sp.Rational(1, 2) else 'on the lower border of its cell' if badz[1] == sp.Rational(-1, 2) else 'at %s' % badz[1],
+                                           '+' if badz[2] > 0 else '-', badz[0]), fx.rel(f['loc']), 'E-STEP')
+                        else:
+                            R.holds('Y5', inst + ':static-axis' + tagx, 'the first crossing of a static axis is +infinity for every origin of the closed cell', fx.rel(f['loc']), 'E-STEP')
             if want != 0 and got == want:
                 tm, td = st.fields.get(('this', 'rayTMax_[%s]' % iv)), st.fields.get(('this', 'rayTDelta_[%s]' % iv))
                 if not isinstance(tm, sp.Basic) or not isinstance(td, sp.Basic):
@@ -716,6 +831,8 @@ def check_set_end_point(fx, R, cq, cname, dim, f):
                     else:
                         R.undecided('Y5', inst + ':formulas' + tagx, 'tMax/tDelta read quantities the reader does not interpret (%s): not compared with (centre + step*res/2 - origin)/direction' % (
                             ', '.join(str(x_)[:70] for x_ in (und + strange)[:2])))
+                elif crossing_equal_by_value(tm, td, d, val, want, o_sym, c_sym, res_atoms):
+                    R.holds('Y5', inst + ':formulas' + tagx, 'tMax = (border - origin)/dir ; tDelta = res/|dir| (another spelling, equal on witness origins and resolutions)', fx.rel(f['loc']), 'E-STEP')
                 else:
                     R.violated('Y5', '%s::setEndPoint:crossing-parameters' % cname, 'for a direction component of %s and the origin at %s of its cell (conditions %s) tMax = %s, tDelta = %s; the first crossing is '
                                '(centre + step*res/2 - origin)/direction and the increment res/|direction|: every crossing on this axis is then shifted' % (
